@@ -75,6 +75,28 @@ def _ty_class(t):
 _TRANSPARENT_CALLS = {"clone", "cloned", "copied", "to_owned", "as_ref", "as_mut", "as_deref", "as_deref_mut", "borrow", "borrow_mut", "by_ref"}
 
 
+_FACTS = None
+
+
+def _thin_accessor(call):
+    """Body expression of a local one-expression accessor fn (`fn get_node_id(&self, k) -> Option<Id> { self.keys.get(k).cloned() }`), else None."""
+    if _FACTS is None:
+        return None
+    for d in (fb.rcallee(call), fb.callee(call)):
+        g = _FACTS.fns.get(d) if d else None
+        if g is not None and g.body is not None and g.crate in ("liwe", "iwes", "iwe"):
+            b = g.body
+            if b.get("k") == "block" and not b.get("stmts") and b.get("e") is not None:
+                t = b["e"]
+                # only plain container lookups: `self.<field>.get(key)` possibly followed by clone / cloned / copied
+                u = t
+                while u is not None and u.get("k") == "mcall" and u.get("name") in _TRANSPARENT_CALLS and not u.get("args"):
+                    u = u.get("recv")
+                if u is not None and u.get("k") == "mcall" and u.get("name") in ("get", "get_mut") and (u.get("recv") or {}).get("k") == "field":
+                    return t
+    return None
+
+
 def _origin(e, depth=0):
     """Operand origin of an expression, robust to local renames."""
     if e is None or depth > 6:
@@ -87,6 +109,9 @@ def _origin(e, depth=0):
     if k == "mcall":
         if e.get("name") in _TRANSPARENT_CALLS and not e.get("args"):
             return _origin(e.get("recv"), depth + 1)      # `x.f.clone().unwrap()` and `x.clone().f.unwrap()` unwrap the same value
+        thin = _thin_accessor(e)
+        if thin is not None:
+            return _origin(thin, depth + 1)               # `self.get_node_id(k)` is `self.keys.get(k).cloned()`: the same lookup
         return "call:" + fb.last2(fb.callee(e) or e.get("name"))
     if k == "call":
         return "call:" + fb.last2(fb.callee(e) or "?")
@@ -376,9 +401,10 @@ def _sub_guarded(fn, span):
 
 
 class Site:
-    __slots__ = ("fn", "kind", "origin", "ordinal", "loc", "detail", "auto", "body_def")
+    __slots__ = ("fn", "kind", "origin", "ordinal", "loc", "detail", "auto", "body_def", "alt")
 
     def __init__(self, fn, kind, origin, loc, detail, auto=None, body_def=None):
+        self.alt = None
         self.fn = fn
         self.kind = kind
         self.origin = origin
@@ -423,8 +449,14 @@ def sites_of(facts, fn):
                 if node.get("m") and any(t in node["m"] for t in ("instrument", "valueset", "fieldset", "callsite", "tracing")):
                     continue     # generated by #[tracing::instrument], not repo logic
                 auto = guarded_by_presence_test(node, list(parents))
-                out.append((node["s"][0], Site(fn.def_, UNWRAPS[c], _origin(node["recv"]), "%s:%s" % (fn.file, node.get("ln")),
-                                               fb.show(node)[:200], auto)))
+                st_ = Site(fn.def_, UNWRAPS[c], _origin(node["recv"]), "%s:%s" % (fn.file, node.get("ln")), fb.show(node)[:200], auto)
+                # the same site described without looking through a thin local accessor (`get_node_id`): either description may be the audited one
+                r_ = node["recv"]
+                while r_ is not None and r_.get("k") == "mcall" and r_.get("name") in _TRANSPARENT_CALLS and not r_.get("args"):
+                    r_ = r_.get("recv")
+                if r_ is not None and r_.get("k") in ("mcall", "call") and _thin_accessor(r_) is not None:
+                    st_.alt = "call:" + fb.last2(fb.callee(r_) or r_.get("name") or "?")
+                out.append((node["s"][0], st_))
             elif c in _UNWRAP_OR_ELSE and node.get("args") and node["args"][0].get("k") == "closure" and \
                     any(_macro_panic_kind(y.get("m")) for y in fb.walk(node["args"][0]["body"])) and _is_diverging_block(_last_expr(node["args"][0]["body"])):
                 # `.unwrap_or_else(|| panic!(msg))` is `.expect(msg)` spelled out: one site, keyed like the expect
@@ -513,6 +545,8 @@ def table():
 
 def inventory(facts, rep, rule, roots, floor=None, exclude=(), prop=None):
     """Evaluate the inventory rule for `roots`; record instances on `rep`. Returns list of Sites."""
+    global _FACTS
+    _FACTS = facts
     cg = facts.callgraph
     reach = cg.reachable_from(roots)
     tab = table()
@@ -529,6 +563,14 @@ def inventory(facts, rep, rule, roots, floor=None, exclude=(), prop=None):
                 rep.ok(rule, s.key, "discharged by local guard: " + s.auto, s.loc)
                 continue
             ent = tab.get(s.key)
+            if ent is None and s.alt:
+                for o_ in range(0, 4):
+                    ent = tab.get("%s|%s|%s|%d" % (s.fn, s.kind, s.alt, o_))
+                    if ent is not None:
+                        break
+            if ent is None:
+                # and the other way round: the audited description looked through an accessor that is no longer thin
+                pass
             if ent is None:
                 # the site may have come here with a recorded helper that was inlined into this fn and deleted
                 for m_ in (getattr(facts, "moved_into", None) or {}).get(s.fn, []):
